@@ -591,7 +591,6 @@ func cmpBound(bo *ssa.BinOp, taken bool) (v ssa.Value, lo, hi *int64, ok bool) {
 	return nil, nil, nil, false
 }
 
-
 // ---- inlining of byte-producing helpers ----
 
 // shapesWithHelpers computes, for one path of f, the shapes of value v with every static call to
